@@ -36,7 +36,13 @@ var listeners = map[string]*listener{}
 var nextPort = 40000
 
 // ResetAll forgets all listeners; call between executions.
-func ResetAll() { listeners = map[string]*listener{}; nextPort = 40000 }
+func ResetAll() {
+	listeners = map[string]*listener{}
+	nextPort = 40000
+	All = nil
+	Window = 0
+	OnAnyWrite = nil
+}
 
 func Listen(network, address string) (Listener, error) {
 	if !vsched.On {
@@ -97,7 +103,19 @@ type End struct {
 	OnWrite func(b []byte)
 	// Server marks the accepting end.
 	Server bool
+	// Owner is the thread group that dialed (client ends created by DialTimeout).
+	Owner string
 }
+
+// All lists every client end created since the last ResetAll.
+var All []*End
+
+// Window, if > 0, is the flow-control window: a Write blocks while more than
+// Window bytes are unread at the peer (TCP back-pressure).  0 = unbounded.
+var Window int
+
+// OnAnyWrite, if set, observes every Write (harness triggers).
+var OnAnyWrite func(e *End, b []byte)
 
 // Dial connects to a virtual listener; from sets the client-side address
 // ("" = a fresh loopback port).  No scheduling point: harness use.
@@ -114,6 +132,7 @@ func Dial(address string, from string) (*End, error) {
 	cli := &End{in: b2a, out: a2b, local: addr(from), remote: addr(address)}
 	srv := &End{in: a2b, out: b2a, local: addr(address), remote: addr(from), Server: true}
 	cli.Peer, srv.Peer = srv, cli
+	All = append(All, cli)
 	l.q = append(l.q, srv)
 	return cli, nil
 }
@@ -130,6 +149,7 @@ func DialTimeout(network, address string, d time.Duration) (Conn, error) {
 	if err != nil {
 		return nil, err
 	}
+	c.Owner = vsched.Cur().Group
 	return c, nil
 }
 
@@ -179,6 +199,22 @@ func (p *End) Write(b []byte) (int, error) {
 	if p.OnWrite != nil {
 		p.OnWrite(b)
 	}
+	if OnAnyWrite != nil {
+		OnAnyWrite(p, b)
+	}
+	if Window > 0 {
+		unread := func() int {
+			n := 0
+			for _, s := range p.out.segs {
+				n += len(s)
+			}
+			return n
+		}
+		vsched.WaitUntil(func() bool { return unread() <= Window || p.closed || p.Peer.closed })
+		if p.closed || p.Peer.closed {
+			return 0, errors.New("write: broken pipe")
+		}
+	}
 	p.out.segs = append(p.out.segs, append([]byte(nil), b...))
 	p.out.n += len(b)
 	return len(b), nil
@@ -196,6 +232,9 @@ func (p *End) Kill() {
 	p.closed, p.Peer.closed = true, true
 	p.in.eof, p.out.eof = true, true
 }
+
+// Closed reports whether this end has been closed or killed.
+func (p *End) Closed() bool { return p.closed }
 
 // Avail returns the bytes currently readable without blocking.
 func (p *End) Avail() int {
